@@ -45,6 +45,10 @@ type Case struct {
 	// with this trust configuration when it validated a genuine logout response (Warm), then reconfigured to
 	// Trust.  Noise: SP options that concern only what it sends (spkit.Noise).
 	DelayH int    `json:"delay_h,omitempty"`
+	// NoKeyInfo: the signature carries no KeyInfo (a trusted signature without KeyInfo is don't-care: the verifier would
+	// have to guess the certificate; an untrusted one must be refused).  Lex: lexical form of IssueInstant (see lexInstant).
+	NoKeyInfo bool   `json:"no_key_info,omitempty"`
+	Lex       string `json:"lex,omitempty"`
 	// At (request-post / request-get entries): the URL the request is delivered at: "" = the SP's logout URL |
 	// other (another SP's URL; Destination class "at" then names exactly that URL) | query (logout URL + query)
 	At string `json:"at,omitempty"`
@@ -163,6 +167,25 @@ func call(f func() error) (o outcome) {
 // document builds the presented XML bytes and says whether, by construction, it
 // is a genuine message: root LogoutResponse carrying an untouched enveloped
 // signature by `signer` over exactly the content that is presented.
+// lexInstant writes t in one of the lexical forms of xsd:dateTime (the same instant in every form).
+func lexInstant(lex string, t time.Time) string {
+	switch lex {
+	case "plus0530":
+		return t.In(time.FixedZone("", 5*3600+1800)).Format("2006-01-02T15:04:05.000-07:00")
+	case "minus0800":
+		return t.In(time.FixedZone("", -8*3600)).Format("2006-01-02T15:04:05.000-07:00")
+	case "plus1400":
+		return t.In(time.FixedZone("", 14*3600)).Format("2006-01-02T15:04:05-07:00")
+	case "zoneless":
+		return t.UTC().Format("2006-01-02T15:04:05.000")
+	case "frac9":
+		return t.UTC().Format("2006-01-02T15:04:05.000000000Z")
+	}
+	return forge.T(t)
+}
+
+var lexForms = []string{"plus0530", "minus0800", "plus1400", "zoneless", "frac9"}
+
 func document(c Case, issueInstant time.Time) (doc []byte, genuineSigned bool, err error) {
 	switch c.Root {
 	case "norootcomment":
@@ -179,6 +202,9 @@ func document(c Case, issueInstant time.Time) (doc []byte, genuineSigned bool, e
 	sign := (*forge.SignSpec)(nil)
 	if c.Signer != "none" {
 		sign = &forge.SignSpec{Key: c.Signer}
+		if c.NoKeyInfo {
+			sign.KeyInfo = "none"
+		}
 	}
 	if c.Root == "response" || c.Root == "assertion" {
 		// a genuinely signed *Response* (or bare Assertion) whose addressing matches the SLO endpoint
@@ -201,7 +227,7 @@ func document(c Case, issueInstant time.Time) (doc []byte, genuineSigned bool, e
 		return forge.Bytes(el), false, nil
 	}
 	l := forge.LogoutSpec{
-		ID: "id-logout-1", InResponseTo: forge.S("id-logoutreq"), IssueInstant: forge.T(issueInstant),
+		ID: "id-logout-1", InResponseTo: forge.S("id-logoutreq"), IssueInstant: lexInstant(c.Lex, issueInstant),
 		Destination: value(c.Dest, spkit.SPSLO), Issuer: value(c.Issuer, spkit.IDPEntity), IssuerFormat: c.IssuerFormat, Status: statuses[c.Status], Sign: sign,
 	}
 	// "edit-*" transforms sign a message that differs in one field and then set the field
@@ -445,7 +471,17 @@ func check(c Case) pbt.Result {
 		res.Err = repeatNote
 		return res
 	}
+	if c.NoKeyInfo {
+		res.Classes = append(res.Classes, "signature-without-keyinfo")
+	}
+	if c.Lex != "" {
+		res.Classes = append(res.Classes, "issue-instant-form:"+c.Lex)
+	}
 	switch {
+	case valid && c.NoKeyInfo:
+		// without KeyInfo the verifier has to guess the certificate: fingerprint trust cannot, and with several
+		// trusted certificates the underlying signature library refuses - only the must-reject side is judged
+		res.Classes = append(res.Classes, "model:dont-care")
 	case valid:
 		// (a future-dated response was issued "no longer than MaxIssueDelay ago" too: the property bounds the past only,
 		// and a response meeting every clause is reported valid)
@@ -485,6 +521,10 @@ func gen(t *rapid.T) Case {
 		if c.At != "" && rapid.Bool().Draw(t, "destat") {
 			c.Dest = Field{Class: "at"}
 		}
+	}
+	c.NoKeyInfo = rapid.IntRange(0, 4).Draw(t, "nokeyinfo") == 0
+	if rapid.IntRange(0, 2).Draw(t, "lex?") == 0 {
+		c.Lex = rapid.SampledFrom(lexForms).Draw(t, "lex")
 	}
 	if rapid.IntRange(0, 5).Draw(t, "repeat?") == 0 {
 		c.Repeat = rapid.IntRange(1, 3).Draw(t, "repeat")
@@ -558,6 +598,22 @@ func enumReconfigured(_ string, emit func(Case)) {
 			emit(Case{Entry: entry, Trust: "meta1", Signer: "idp", Transform: "none", Dest: ok, Issuer: ok, Status: "success", Age: "fresh", Root: "logout", Repeat: 5, PadKB: kb})
 		}
 	}
+	// signatures without KeyInfo by every signer under every trust configuration; every lexical form of IssueInstant
+	// at every age
+	for _, trust := range spkit.Trusts {
+		for _, signer := range []string{"idp", "idp2", "idpenc", "attacker", "idpski", "lookalike"} {
+			for _, entry := range []string{"form", "redirect"} {
+				emit(Case{Entry: entry, Trust: trust, Signer: signer, NoKeyInfo: true, Transform: "none", Dest: ok, Issuer: ok, Status: "success", Age: "fresh", Root: "logout"})
+			}
+		}
+	}
+	for _, lx := range lexForms {
+		for _, age := range []string{"fresh", "half", "stale", "old", "future", "far-future"} {
+			for _, entry := range []string{"form", "redirect", "request-post", "request-get"} {
+				emit(Case{Entry: entry, Trust: "meta1", Signer: "idp", Transform: "none", Dest: ok, Issuer: ok, Status: "success", Age: age, Root: "logout", Lex: lx})
+			}
+		}
+	}
 	for _, h := range []int{6, 48} {
 		for _, age := range []string{"fresh", "half", "stale", "old", "future", "far-future"} {
 			for _, entry := range []string{"form", "redirect", "request-post", "request-get"} {
@@ -624,7 +680,7 @@ func enumSingleFault(_ string, emit func(Case)) {
 var prop = &pbt.Prop[Case]{
 	ID: "C18",
 	Rule: "cases: LogoutResponse documents built by the harness and presented through ValidateLogoutResponseForm / Redirect / Request(GET, POST): signer in {trusted, second trusted, encryption-only IdP key, untrusted, nobody} x trust configuration x transformation after signing " +
-		"(signature moved into Status / Extensions, wrapped in an evil root with the signature copied, one field edited after signing, re-signed by the untrusted key with the trusted certificate in KeyInfo (alone, or in a two-certificate chain in either order), stripped, duplicated) x Destination, Issuer in {correct, wrong, near-miss, empty, absent} (Issuer with any Format attribute) x Status (16 top-level / nested values) x delivery URL of the request entry points {logout URL, another SP's URL, logout URL + query; Destination may name exactly the delivery URL} x repeated presentation of the very same message (optionally padded to 3 MiB by a comment) to one SP x IssueInstant age {0, 1/2, 3/2, 10} x MaxIssueDelay in {1 h, 6 h, 48 h} and future-dated, on an SP value that may have validated a genuine logout response before - under another trust configuration (all ordered pairs enumerated) - and with unrelated SP options set, " +
+		"(signature moved into Status / Extensions, wrapped in an evil root with the signature copied, one field edited after signing, re-signed by the untrusted key with the trusted certificate in KeyInfo (alone, or in a two-certificate chain in either order), stripped, duplicated) x Destination, Issuer in {correct, wrong, near-miss, empty, absent} (Issuer with any Format attribute) x Status (16 top-level / nested values) x delivery URL of the request entry points {logout URL, another SP's URL, logout URL + query; Destination may name exactly the delivery URL} x repeated presentation of the very same message (optionally padded to 3 MiB by a comment) to one SP x signatures with and without KeyInfo x lexical form of IssueInstant (Z, offsets, zone-less, nine fraction digits) x IssueInstant age {0, 1/2, 3/2, 10} x MaxIssueDelay in {1 h, 6 h, 48 h} and future-dated, on an SP value that may have validated a genuine logout response before - under another trust configuration (all ordered pairs enumerated) - and with unrelated SP options set, " +
 		"plus malformed framings (rootless, empty, text, truncated XML, bad base64, bad deflate, 11 MiB deflate bomb, SOAP envelope, a genuinely signed Response or Assertion presented as a logout response). " +
 		"exhaustive single-fault grid over every entry point and trust configuration plus rapid full combinations. oracle: nil error iff untouched trusted enveloped signature on the root, Destination = SLO URL, Issuer = IdP entity ID, fresh, Success; never a panic. " +
 		"non-trivial: the document carries a signature that verifies under some key and differs from the accepted baseline, or is malformed. distinct: sha256 of the JSON case.",
